@@ -63,8 +63,8 @@ package server
 //@   serves C16
 //@   requires s != nil && s.cache != nil && s.accessLogger != nil && srv != nil
 //@   noframe
-//@   nosafety
 //@   call parseWriteResource#* asserts[C16] firstmessage: firstIteration && arg1 == req.ResourceName && req.ResourceName != ""
+//@   call Get#* assumes pooled: !istype(result, "*syncpool.DecoderWrapper") || as(result, "*syncpool.DecoderWrapper") != nil
 //@   loop 0 invariant firstprobe: firstIteration ==> probeN == old(probeN)
 //@   call Cache.Contains#* asserts[C16] probe: firstIteration && arg2 == 1
 //@   call Printf#2 asserts[C16] offsetafterprobe: probeN == old(probeN) + 1 && !probeFound && req.WriteOffset != 0
@@ -72,10 +72,9 @@ package server
 
 // The goroutine that stores the blob: the digest parsed from the resource name, in the CAS.
 //@ func (s *grpcServer) Write$1$1()
-//@   serves C16 C01
-//@   requires s != nil && s.cache != nil && srv != nil
+//@   serves C16 C01 C14
+//@   requires s != nil && s.cache != nil && srv != nil && rc != nil && putResult != nil
 //@   noframe
-//@   nosafety
 //@   call Cache.Put#* asserts[C01,C16] declared: arg2 == 1 && arg3 == hash && arg4 == size && arg5 == rc
 
 //@ func (s *grpcServer) QueryWriteStatus(ctx context.Context, req *bytestream.QueryWriteStatusRequest) (*bytestream.QueryWriteStatusResponse, error)
